@@ -1,2 +1,71 @@
-(* C06 -- theorems are being added *)
-From ZK Require Import Laws.
+(* C06 -- Blind BBS soundness.  Proved here: gating (a blind signature is returned only if the commitment is absent or its
+   proof of correctness verified against this suite's blind generators), strict framing of the commitment (only
+   112 + 32 k octets decode; re-encoding is the identity), and that an accepted commitment proof pins its challenge to the
+   hash of (M, blind generators, C, recomputed Cbar).  Bit flips / other messages / cross-suite replays of accepted
+   commitments and the binding of blind signatures and proofs rest on collision resistance: correspondence + sweep. *)
+From ZK Require Import Laws BaseLemmas ModelLemmas SignProofs Codec Soundness.
+
+Theorem C06_blind_sign_gated :
+  forall (E : env) sk pk cwp header msgs s,
+  blind_sign E sk pk cwp header msgs = Ok s ->
+  option_default [] cwp = [] \/
+  exists x bg, commitment_from_bytes E (option_default [] cwp) = Ok x /\
+    (exists n, gens_create E n (blind_prefix ++ c_api_id_blind (cs E)) = Ok bg) /\
+    core_commit_verify E (cm_C E x) (cm_proof E x) (g_values E bg) (c_api_id_blind (cs E)) = Ok tt.
+Proof. exact blind_sign_gated. Qed.
+Check (C06_blind_sign_gated :
+  forall (E : env) sk pk cwp header msgs s,
+  blind_sign E sk pk cwp header msgs = Ok s ->
+  option_default [] cwp = [] \/
+  exists x bg, commitment_from_bytes E (option_default [] cwp) = Ok x /\
+    (exists n, gens_create E n (blind_prefix ++ c_api_id_blind (cs E)) = Ok bg) /\
+    core_commit_verify E (cm_C E x) (cm_proof E x) (g_values E bg) (c_api_id_blind (cs E)) = Ok tt).
+Print Assumptions C06_blind_sign_gated.
+
+Theorem C06_dvc_gated :
+  forall (E : env) cwp bg api C,
+  deserialize_and_validate_commit E cwp bg api = Ok C ->
+  option_default [] cwp = [] /\ C = g1_zero (PR E) \/
+  exists x, commitment_from_bytes E (option_default [] cwp) = Ok x /\ C = cm_C E x /\
+            core_commit_verify E (cm_C E x) (cm_proof E x) (g_values E bg) (option_default [] api) = Ok tt.
+Proof. exact dvc_gated. Qed.
+Check (C06_dvc_gated :
+  forall (E : env) cwp bg api C,
+  deserialize_and_validate_commit E cwp bg api = Ok C ->
+  option_default [] cwp = [] /\ C = g1_zero (PR E) \/
+  exists x, commitment_from_bytes E (option_default [] cwp) = Ok x /\ C = cm_C E x /\
+            core_commit_verify E (cm_C E x) (cm_proof E x) (g_values E bg) (option_default [] api) = Ok tt).
+Print Assumptions C06_dvc_gated.
+
+Theorem C06_core_commit_verify_accepts :
+  forall (E : env) (LW : Laws E) C z bgs api,
+  core_commit_verify E C z bgs api = Ok tt ->
+  exists bg G2_ Js, get_range bgs 0 (length (z_m_cap E z) + 1) = Some bg /\ bg = G2_ :: Js /\
+    calculate_blind_challenge E C
+      (g1_add (PR E) (msm_acc E (g1_mul (PR E) (z_s_cap E z) G2_) Js (z_m_cap E z))
+                     (g1_mul (PR E) (fopp (SO E) (z_chal E z)) C))
+      bg api = Ok (z_chal E z).
+Proof. exact core_commit_verify_accepts. Qed.
+Check (C06_core_commit_verify_accepts :
+  forall (E : env) (LW : Laws E) C z bgs api,
+  core_commit_verify E C z bgs api = Ok tt ->
+  exists bg G2_ Js, get_range bgs 0 (length (z_m_cap E z) + 1) = Some bg /\ bg = G2_ :: Js /\
+    calculate_blind_challenge E C
+      (g1_add (PR E) (msm_acc E (g1_mul (PR E) (z_s_cap E z) G2_) Js (z_m_cap E z))
+                     (g1_mul (PR E) (fopp (SO E) (z_chal E z)) C))
+      bg api = Ok (z_chal E z)).
+Print Assumptions C06_core_commit_verify_accepts.
+
+Theorem C06_commitment_strict_len :
+  forall (E : env) (LW : Laws E) b x, commitment_from_bytes E b = Ok x -> exists k, length b = (112 + 32 * k)%nat.
+Proof. exact commitment_strict_len. Qed.
+Check (C06_commitment_strict_len :
+  forall (E : env) (LW : Laws E) b x, commitment_from_bytes E b = Ok x -> exists k, length b = (112 + 32 * k)%nat).
+Print Assumptions C06_commitment_strict_len.
+
+Theorem C06_commitment_codec_canonical :
+  forall (E : env) (LW : Laws E) b x, commitment_from_bytes E b = Ok x -> commitment_to_bytes E x = b.
+Proof. exact commitment_codec_canonical. Qed.
+Check (C06_commitment_codec_canonical :
+  forall (E : env) (LW : Laws E) b x, commitment_from_bytes E b = Ok x -> commitment_to_bytes E x = b).
+Print Assumptions C06_commitment_codec_canonical.
